@@ -12,6 +12,7 @@ import (
 	"pgregory.net/rapid"
 
 	"github.com/ohler55/ojg"
+	"github.com/ohler55/ojg/alt"
 	"github.com/ohler55/ojg/gen"
 	"github.com/ohler55/ojg/oj"
 	"github.com/ohler55/ojg/pretty"
@@ -137,6 +138,29 @@ func (n zNest) MarshalJSON() ([]byte, error) {
 	}
 }
 
+// Fields of named non-struct types (type Celsius float32): the by-offset and the reflection accessors must agree on them.
+type (
+	zCelsius float32
+	zLevel   int
+	zName    string
+	zFlag    bool
+	zCount   uint16
+)
+
+type zReading struct {
+	C  zCelsius
+	L  zLevel
+	N  zName
+	F  zFlag
+	U  zCount
+	OC zCelsius `json:"oc,omitempty"`
+}
+
+type zReadingBox struct {
+	R  zReading
+	Rs []zReading
+}
+
 // boom is a Simplifier that panics while it is being written when armed.
 type boom struct {
 	Armed bool
@@ -193,7 +217,7 @@ func (o *op07) String() string {
 		if len(v) > 160 {
 			v = v[:140] + "…"
 		}
-		fmt.Fprintf(&b, " value=%s opts={Indent=%d Tab=%v Sort=%v OmitNil=%v OmitEmpty=%v UseTags=%v KeyExact=%v NestEmbed=%v Color=%v} limit=%d failCall=%d", v, o.Opt.Indent, o.Opt.Tab, o.Opt.Sort, o.Opt.OmitNil, o.Opt.OmitEmpty, o.Opt.UseTags, o.Opt.KeyExact, o.Opt.NestEmbed, o.Opt.Color, o.Limit, o.FailCall)
+		fmt.Fprintf(&b, " value=%s opts={Indent=%d Tab=%v Sort=%v OmitNil=%v OmitEmpty=%v UseTags=%v KeyExact=%v NestEmbed=%v Color=%v TimeMap=%v CreateKey=%q FullTypePath=%v TimeWrap=%q TimeFormat=%q BytesAs=%d HTMLUnsafe=%v} limit=%d failCall=%d", v, o.Opt.Indent, o.Opt.Tab, o.Opt.Sort, o.Opt.OmitNil, o.Opt.OmitEmpty, o.Opt.UseTags, o.Opt.KeyExact, o.Opt.NestEmbed, o.Opt.Color, o.Opt.TimeMap, o.Opt.CreateKey, o.Opt.FullTypePath, o.Opt.TimeWrap, o.Opt.TimeFormat, o.Opt.BytesAs, o.Opt.HTMLUnsafe, o.Limit, o.FailCall)
 	}
 	if o.Keep {
 		b.WriteString(" (options left as they are)")
@@ -281,7 +305,19 @@ func drawValue07(t *rapid.T) (any, string) {
 		}
 		return it
 	}
-	switch sim.Weighted(t, "valkind", 5, 2, 2, 1, 1, 1, 1, 2, 2, 1) {
+	switch sim.Weighted(t, "valkind", 5, 2, 2, 1, 1, 1, 1, 2, 2, 1, 1) {
+	case 10: // times and byte slices (what the time and bytes options act on), bare, in containers, behind a pointer
+		tm := time.Unix(int64(sim.Intn(t, 3, "sec")), int64(sim.Intn(t, 2, "nsec"))*500000000).UTC()
+		switch sim.Intn(t, 4, "timeform") {
+		case 0:
+			return []any{tm, mk(), []byte("by")}, fmt.Sprintf("[time(%d), zInner, bytes]", tm.UnixNano())
+		case 1:
+			return map[string]any{"t": tm, "p": &tm}, fmt.Sprintf("{t:time(%d) p:&time}", tm.UnixNano())
+		case 2:
+			return []time.Time{tm, tm}, fmt.Sprintf("[]time.Time{%d x2}", tm.UnixNano())
+		default:
+			return tm, fmt.Sprintf("time(%d)", tm.UnixNano())
+		}
 	case 9: // a value that calls the pooled functions again while it is being written
 		how := sim.Intn(t, 3, "nesthow")
 		in := mk()
@@ -302,7 +338,21 @@ func drawValue07(t *rapid.T) (any, string) {
 			return v, "[]*zItem{&" + dd(it) + "}"
 		}
 	case 8: // ... and held by value, by pointer and in containers by another struct
-		switch sim.Intn(t, 8, "holder") {
+		switch sim.Intn(t, 10, "holder") {
+		case 8, 9:
+			rd := zReading{C: zCelsius([]float32{0, 1.5, -2.25}[sim.Intn(t, 3, "c")]), L: zLevel(sim.Intn(t, 3, "l")), N: zName([]string{"", "n"}[sim.Intn(t, 2, "nm")]), F: zFlag(sim.Bool(t, "f")), U: zCount(sim.Intn(t, 3, "u")), OC: zCelsius(sim.Intn(t, 2, "oc"))}
+			switch sim.Intn(t, 4, "rform") {
+			case 0:
+				return &rd, "&" + dd(rd)
+			case 1:
+				return rd, dd(rd)
+			case 2:
+				v := zReadingBox{R: rd, Rs: []zReading{rd}}
+				return v, dd(v)
+			default:
+				v := &zReadingBox{R: rd}
+				return v, "&" + dd(*v)
+			}
 		case 6, 7:
 			it := zItemV{Val: zValM{sim.Intn(t, 2, "valm")}, At: time.Unix(int64(sim.Intn(t, 3, "at")), 0).UTC(), N: sim.Intn(t, 2, "n")}
 			switch sim.Intn(t, 4, "vform") {
@@ -411,6 +461,16 @@ func drawOptions07(t *rapid.T) ojg.Options {
 	o.UseTags = sim.Intn(t, 3, "usetags") == 2
 	o.KeyExact = sim.Intn(t, 3, "keyexact") == 2
 	o.NestEmbed = sim.Intn(t, 4, "nestembed") == 3
+	if sim.Intn(t, 5, "rareopts") == 4 {
+		// options that are rarely set, alone and together
+		o.TimeMap = sim.Bool(t, "timemap")
+		o.CreateKey = []string{"", "type", "^"}[sim.Intn(t, 3, "createkey")]
+		o.FullTypePath = sim.Bool(t, "fulltypepath")
+		o.TimeWrap = []string{"", "@"}[sim.Intn(t, 2, "timewrap")]
+		o.TimeFormat = []string{"", "nano", "second", time.RFC3339Nano}[sim.Intn(t, 4, "timeformat")]
+		o.BytesAs = sim.Intn(t, 3, "bytesas")
+		o.HTMLUnsafe = sim.Bool(t, "htmlunsafe")
+	}
 	if sim.Intn(t, 8, "color") == 7 {
 		d := ojg.DefaultOptions
 		o.Color = true
@@ -552,6 +612,9 @@ func drawOp07(t *rapid.T, faults bool, th *theme07) *op07 {
 	}
 	if reader {
 		o.Sched = sim.DrawSchedule(t, len(o.Input), nil)
+	}
+	if o.Fn == "Unmarshal" && o.Subj == "oj.Parser" {
+		o.Mode = sim.Intn(t, 2, "recomposerarg") // 1: with the recomposer argument
 	}
 	if !strings.Contains(o.Subj, "Validator") && !strings.Contains(o.Subj, "Tokenizer") && o.Fn != "Unmarshal" && o.Fn != "MustParse" {
 		o.Mode = sim.Weighted(t, "mode", 4, 2, 1)
@@ -764,7 +827,11 @@ func (o *op07) exec(w *world07) (r *res07) {
 				}()
 			case o.Fn == "Unmarshal":
 				var out any
-				err = w.ojP.Unmarshal(buf, &out)
+				if o.Mode%2 == 1 { // (with the recomposer argument)
+					err = w.ojP.Unmarshal(buf, &out, *alt.MustNewRecomposer("", nil))
+				} else {
+					err = w.ojP.Unmarshal(buf, &out)
+				}
 				v = out
 			case o.Subj == "oj.Parser" && o.Fn == "Parse":
 				w.ojP.Reuse = o.Reuse
